@@ -157,7 +157,7 @@ func checkGetFastaRecord(c *core.Ctx, rule string) {
 	}
 	maxLen := 4
 	if c.Tier == "thorough" {
-		maxLen = 5
+		maxLen = 6
 	}
 	rows := allStrings("AC*-", maxLen)
 	ev := newEval(c)
@@ -542,9 +542,11 @@ func c15Wrap(c *core.Ctx) {
 
 func c15WindowFilter(c *core.Ctx) {
 	// an insertion in front of the first reference base has position 0: any --start >= 1 excludes it
+	// deletions of several bases: a mutation is in the window iff its POSITION is (the first deleted base), in both writers
+	delLen := map[int64]int64{1: 1, 2: 3, 3: 1, 4: 2, 5: 1}
 	vs := []*eval.StructVal{mkVariant(c, "ins", 0, 2, "", "")}
 	for p := int64(1); p <= 5; p++ {
-		vs = append(vs, mkVariant(c, "del", p, 1, "", ""))
+		vs = append(vs, mkVariant(c, "del", p, delLen[p], "", ""))
 	}
 	feed := func() []eval.Value { return []eval.Value{mkAnno(c, "q0", 0, vs...)} }
 	want := func(s, e int64) []string {
@@ -554,7 +556,7 @@ func c15WindowFilter(c *core.Ctx) {
 				if p == 0 {
 					out = append(out, "ins:0:2")
 				} else {
-					out = append(out, fmt.Sprintf("del:%d:1", p))
+					out = append(out, fmt.Sprintf("del:%d:%d", p, delLen[p]))
 				}
 			}
 		}
